@@ -68,6 +68,11 @@ PROPS = {
         "trusted_base": ["the whole-interpreter frame invariant (a construct leaves the frames below its own untouched) is decided by the reference-environment suite; the theorems cover the frame combinator, set, child contexts, key validation and the regenerated effect table"],
         "assumptions": ["caller Context and set Globals are deep-compared before/after every execution of generated programs"],
     },
+    "C13": {
+        "suites": [{"name": "c13-bind", "proj": ["binding", "class", "output", "driver"]}, {"name": "c13-rec", "proj": ["recursion"]}],
+        "trusted_base": ["Go stack growth is not modelled: 'instead of exhausting the stack' is observed by running runaway recursion in an isolated worker process", "macro closures capture their defining context by reference; the model keeps contexts in numbered frames"],
+        "assumptions": ["imported macros whose body refers to names of the defining file (incl. their own name under an alias) are outside the 'behaves like local' clause"],
+    },
     "C14": {
         "suites": [{"name": "c14-fail", "proj": ["variants"]}],
         "trusted_base": ["bytes.Buffer / io.Writer plumbing is modelled as an append-only byte list with save/restore for buffering constructs", "the prefix property of the unbuffered variant (output only grows) is decided by the fault-injection suite, not yet by a theorem over the whole interpreter"],
